@@ -80,22 +80,24 @@ def firstStore (g : Cfg) (start : Nat) (item : Reg) : List (W Reg) :=
           | none => go fuel (rest ++ (g.get p).prevs) visited acc
   go (4 * (g.nodes.size + 1) * (g.nodes.size + 1) + 8) (g.get start).prevs [start] []
 
+/-- the diagnostic (at most one) for the first use of register `r` after node `start` -/
+def usageDiag (variant : String) (g : Cfg) (start : Nat) (r : Reg) : List Diag :=
+  match firstUsage g start r with
+  | [] => []
+  | [some w] => [onReg variant w]
+  | [none] => []
+  | many =>
+    -- several candidates: the code reports exactly one of them (or none, if the picked
+    -- candidate has no matching read)
+    let toks := many.filterMap id
+    match toks with
+    | [] => []
+    | w :: _ => [{ onReg variant w toks with
+                   alts := (toks.map fun a => (a.tok.range, a.tok.file)) ++
+                           (if many.any Option.isNone then [(⟨⟨0,0,0⟩,⟨0,0,0⟩⟩, nilFile)] else []) }]
+
 def usageDiags (variant : String) (g : Cfg) (start : Nat) (regs : RegSet) : List Diag :=
-  (RegSet.toList regs).foldl (fun acc r =>
-    let cands := (firstUsage g start r)
-    match cands with
-    | [] => acc
-    | [some w] => acc ++ [onReg variant w]
-    | [none] => acc
-    | many =>
-      -- several candidates: the code reports exactly one of them (or none, if the picked
-      -- candidate has no matching read)
-      let toks := many.filterMap id
-      match toks with
-      | [] => acc
-      | w :: _ => acc ++ [{ onReg variant w toks with
-                            alts := (toks.map fun a => (a.tok.range, a.tok.file)) ++
-                                    (if many.any Option.isNone then [(⟨⟨0,0,0⟩,⟨0,0,0⟩⟩, nilFile)] else []) }]) []
+  (RegSet.toList regs).flatMap (usageDiag variant g start)
 
 def isOriginal (m : AMap Reg) (r : Reg) : Bool := AMap.get m r == some (.ors r 0#32)
 
@@ -108,19 +110,20 @@ def lintSaveToZero (g : Cfg) : List Diag :=
     | some rd => if rd.val == 0 && !cn.node.canSkipSaveChecks then some (onReg "SaveToZero" rd) else none
     | none => none
 
-def lintDeadValue (g : Cfg) : List Diag :=
-  (List.range g.nodes.size).foldl (fun acc i =>
-    let cn := g.get i
-    match callsToFromCfg g cn with
-    | some (f, _) =>
-      let out := (RegSet.diff callerSavedSet (funcReturns g f)) &&& cn.liveOut
-      acc ++ (usageDiags "InvalidUseAfterCall" g i out).map fun d => { d with site := some i }
-    | none =>
-      match cn.node.writesTo with
-      | some d =>
-        if !RegSet.mem cn.liveOut d.val && !cn.node.canSkipSaveChecks then acc ++ [onReg "DeadAssignment" d]
-        else acc
-      | none => acc) []
+/-- what `DeadValueCheck` contributes at node `i` -/
+def deadValueAt (g : Cfg) (i : Nat) : List Diag :=
+  let cn := g.get i
+  match callsToFromCfg g cn with
+  | some (f, _) =>
+    let out := (RegSet.diff callerSavedSet (funcReturns g f)) &&& cn.liveOut
+    (usageDiags "InvalidUseAfterCall" g i out).map fun d => { d with site := some i }
+  | none =>
+    match cn.node.writesTo with
+    | some d =>
+      if !RegSet.mem cn.liveOut d.val && !cn.node.canSkipSaveChecks then [onReg "DeadAssignment" d] else []
+    | none => []
+
+def lintDeadValue (g : Cfg) : List Diag := (List.range g.nodes.size).flatMap (deadValueAt g)
 
 def lintInstructionInText (g : Cfg) : List Diag :=
   g.nodes.toList.filterMap fun cn =>
@@ -130,33 +133,38 @@ def lintEcall (g : Cfg) : List Diag :=
   g.nodes.toList.filterMap fun cn =>
     if cn.node.isEcall && (knownEcall cn).isNone then some (onNode "UnknownEcall" cn.node) else none
 
-def lintControlFlow (g : Cfg) : List Diag :=
-  g.nodes.toList.foldl (fun acc cn =>
-    if cn.node.isFunctionEntry then
-      cn.prevs.foldl (fun acc p =>
-        let pn := (g.get p).node
-        if cn.funcs.isEmpty then acc
-        else if pn.isProgramEntry then
-          acc ++ cn.funcs.map fun _ => onNode "FirstInstructionIsFunction" cn.node
-        else if pn.isUnconditionalJump then acc ++ [onNode "InvalidJumpToFunction" cn.node]
-        else acc) acc
-    else if !cn.node.isProgramEntry && cn.prevs.isEmpty then
-      acc ++ [{ code := "unreachable-code", sev := "Warning", title := "Unreachable line of code",
-                range := cn.node.tok.range, file := cn.node.tok.file,
-                desc := "There is no path to this instruction.", text := cn.node.tok.text }]
-    else acc) []
+/-- what `ControlFlowCheck` contributes for one predecessor `p` of a function entry `cn` -/
+def entryPredDiags (g : Cfg) (cn : CNode) (p : Nat) : List Diag :=
+  let pn := (g.get p).node
+  if cn.funcs.isEmpty then []
+  else if pn.isProgramEntry then cn.funcs.map fun _ => onNode "FirstInstructionIsFunction" cn.node
+  else if pn.isUnconditionalJump then [onNode "InvalidJumpToFunction" cn.node]
+  else []
 
-def lintGarbageInput (g : Cfg) : List Diag :=
-  (List.range g.nodes.size).foldl (fun acc i =>
-    let cn := g.get i
-    if cn.node.isProgramEntry then
-      acc ++ usageDiags "InvalidUseBeforeAssignment" g i (RegSet.diff cn.liveIn programArgsSet)
-    else
-      match cn.funcs.filterMap (fun e => if e == i then g.funcOfEntry e else none) with
-      | f :: _ =>
-        let garbage := RegSet.diff (RegSet.diff cn.liveIn (funcArguments g f)) calleeSavedSet
-        acc ++ usageDiags "InvalidUseBeforeAssignment" g i garbage
-      | [] => acc) []
+def unreachableDiag (cn : CNode) : Diag :=
+  { code := "unreachable-code", sev := "Warning", title := "Unreachable line of code",
+    range := cn.node.tok.range, file := cn.node.tok.file,
+    desc := "There is no path to this instruction.", text := cn.node.tok.text }
+
+def controlFlowAt (g : Cfg) (cn : CNode) : List Diag :=
+  if cn.node.isFunctionEntry then cn.prevs.flatMap (entryPredDiags g cn)
+  else if !cn.node.isProgramEntry && cn.prevs.isEmpty then [unreachableDiag cn]
+  else []
+
+def lintControlFlow (g : Cfg) : List Diag := g.nodes.toList.flatMap (controlFlowAt g)
+
+def garbageAt (g : Cfg) (i : Nat) : List Diag :=
+  let cn := g.get i
+  if cn.node.isProgramEntry then
+    usageDiags "InvalidUseBeforeAssignment" g i (RegSet.diff cn.liveIn programArgsSet)
+  else
+    match cn.funcs.filterMap (fun e => if e == i then g.funcOfEntry e else none) with
+    | f :: _ =>
+      let garbage := RegSet.diff (RegSet.diff cn.liveIn (funcArguments g f)) calleeSavedSet
+      usageDiags "InvalidUseBeforeAssignment" g i garbage
+    | [] => []
+
+def lintGarbageInput (g : Cfg) : List Diag := (List.range g.nodes.size).flatMap (garbageAt g)
 
 /-- `StackCheckPass`: stops at the first node whose stack pointer is unknown / not sp-relative /
     above the entry value. -/
@@ -181,21 +189,23 @@ def lintStack (g : Cfg) : List Diag :=
   go g.nodes.toList []
 
 /-- `CalleeSavedRegisterCheck`: one visit per *label* of a function. -/
-def lintCalleeSaved (g : Cfg) : List Diag :=
-  g.labelFunc.reverse.foldl (fun acc lf =>
-    match g.funcOfEntry lf.2 with
-    | none => acc
-    | some f =>
-      let exitVals := (g.get f.exit).regIn
-      (RegSet.toList calleeSavedSet).foldl (fun acc r =>
-        if isOriginal exitVals r then acc
-        else acc ++ (firstStore g f.exit r).map (onReg "OverwriteCalleeSavedRegister")) acc) []
+def calleeSavedAt (g : Cfg) (lf : String × Nat) : List Diag :=
+  match g.funcOfEntry lf.2 with
+  | none => []
+  | some f =>
+    let exitVals := (g.get f.exit).regIn
+    (RegSet.toList calleeSavedSet).flatMap fun r =>
+      if isOriginal exitVals r then []
+      else (firstStore g f.exit r).map (onReg "OverwriteCalleeSavedRegister")
 
-def lintCalleeSavedGarbageRead (g : Cfg) : List Diag :=
-  g.nodes.toList.foldl (fun acc cn =>
-    acc ++ (readsSet cn.node).filterMap fun rd =>
-      if RegSet.mem savedSet rd.val && cn.node.usesMemoryLocation.isNone && isOriginal cn.regIn rd.val
-      then some (onReg "InvalidUseBeforeAssignment" rd) else none) []
+def lintCalleeSaved (g : Cfg) : List Diag := g.labelFunc.reverse.flatMap (calleeSavedAt g)
+
+def garbageReadAt (cn : CNode) : List Diag :=
+  (readsSet cn.node).filterMap fun rd =>
+    if RegSet.mem savedSet rd.val && cn.node.usesMemoryLocation.isNone && isOriginal cn.regIn rd.val
+    then some (onReg "InvalidUseBeforeAssignment" rd) else none
+
+def lintCalleeSavedGarbageRead (g : Cfg) : List Diag := g.nodes.toList.flatMap garbageReadAt
 
 def lintLostCalleeSaved (g : Cfg) : List Diag :=
   g.nodes.toList.filterMap fun cn =>
